@@ -41,7 +41,7 @@ def ambient_reads(fns):
 def run(prog, rep):
     rep.rule("E4", "hash-iteration order never reaches an order-sensitive use")
     n = e4.run_e4(prog, rep)
-    rep.floor("E4", n, 12, "hash iterations")
+    rep.floor("E4", n, 6, "hash iterations")
     rep.rule("E4.g", "no static mut, no static with interior mutability, no thread_local!")
     e4.run_e4g(prog, rep)
     # positive control for E4.g: the detector recognises interior-mutable type names
